@@ -7,6 +7,11 @@
 //	utxosave record -out <ndjson> -opts <json> -seed S -traces K -ops N -dir <scratch>
 //	    ungated, perturbed (VERIF_YIELD) random histories; the hook trace is written for TraceUtxoSave,
 //	    a watcher goroutine parses every UTXO.db that appears.
+//	utxosave refuse -dir <scratch> -seed S -rounds K
+//	    blocks that pass CheckBlock but are refused inside commitTxs while the script workers of an earlier
+//	    many-input transaction are running: refused, tip and UTXO unchanged, no crash (run as a child process).
+//	utxosave blockdb -dir <scratch> -seed S -rounds K -batch N
+//	    block writer (Idle) next to BlockTrusted of written blocks; every record must come back after a reopen.
 //	utxosave stress -dir <scratch> -seed S -rounds K
 //	    real chain (harness/conc) with blocks that engage every fan-out, connected / reorganised while
 //	    Idle / Save / HurryUp run; watcher on UTXO.db; prints the digest of the final UTXO dumps.
@@ -130,6 +135,10 @@ func main() {
 		cmdRecord(os.Args[2:])
 	case "stress":
 		cmdStress(os.Args[2:])
+	case "refuse":
+		cmdRefuse(os.Args[2:])
+	case "blockdb":
+		cmdBlockDB(os.Args[2:])
 	default:
 		os.Exit(2)
 	}
